@@ -76,7 +76,18 @@ def GenerateRxnNet(initial_reactant, reaction_rules):
                 reaction_rules[i] = ReactionFromSmarts(reaction_rules[i])
 
     # generator main algorithm
-    unprocessed = initial_reactant
+    # the same species may be given more than once among the seeds
+    unprocessed = []
+    for mol1 in initial_reactant:
+        inthelist = 0
+        for mol2 in unprocessed:
+            if mol1.GetNumAtoms() == mol2.GetNumAtoms() and \
+                mol1.GetNumAtoms() == len(mol1.GetSubstructMatch
+                                          (mol2)):
+                inthelist = 1
+                break
+        if inthelist == 0:
+            unprocessed.append(mol1)
     processed = []
     while unprocessed:
         # Pop a molecule and put it in a processed list
